@@ -9,6 +9,9 @@
 (* element - the code reads it as a surrogate pair -, a lone surrogate is an element of its own) in one   *)
 (* context to a token sequence of Serializer.tla, or Err.  MC_Serializer checks it against the abstract   *)
 (* parser; the deviations it has are named KD_* below (known_findings: same keys).                        *)
+(* The transcription is of the code WITH the repairs of /verif/fixes/C04-*.patch (and ee3b6b4) applied:     *)
+(* cdataSectionLeftOpen, cdataEndAfterUnencodable, charRefInCommentOrPI, xml11TabRejected,                 *)
+(* rawLineEndInCdataSection, loneSurrogateWritten, nonCharacterWritten.                                    *)
 EXTENDS Serializer
 
 Err == <<<<"err">>>>       \* a token sequence no writer produces
@@ -24,7 +27,9 @@ Flag10(c) == IF c \in {9, 34} THEN eAttr
              ELSE IF c < 32 THEN eForb
              ELSE eNone
 Flag11(c) == IF c = 0 THEN eNone
-             ELSE IF c <= 31 THEN eCRFb            \* TAB, LF and CR included
+             ELSE IF c = 9 THEN eAttr              \* TAB and LF as in the 1.0 table (fix C04-xml11TabRejected);
+             ELSE IF c = 10 THEN eBoth             \* CR stays "reference only": a literal CR does not come back
+             ELSE IF c <= 31 THEN eCRFb
              ELSE IF c = 34 THEN eAttr
              ELSE IF c \in {38, 60, 62} THEN eBoth
              ELSE IF c = 133 THEN eBoth
@@ -37,21 +42,27 @@ ContentSpecial(c, ver) == ~InRange(c, ver) /\ Flag(c, ver) > eAttr          \* :
 Forbidden(c, ver) == ~InRange(c, ver) /\ Flag(c, ver) = eForb               \* ::isForbidden
 CharRefForbidden(c, ver) == ~InRange(c, ver) /\ Flag(c, ver) = (IF ver = V11 THEN eCRFb ELSE eForb)   \* ::isCharRefForbidden
 
+(* ---- checkCodeUnit: an unpaired surrogate or U+FFFE / U+FFFF is refused ------------------------------- *)
+(* (a well-formed pair is ONE element here, so every surrogate element is unpaired)                      *)
+BadUnit(c) == IsSurrogate(c) \/ c \in {65534, 65535}
+
 (* ---- the writers: m_writer.write(chars, start, length) on one character ----------------------------- *)
-(* UTF-8 / other: a high surrogate needs its low half (exception otherwise); a lone LOW surrogate is      *)
-(* passed on as an ordinary BMP character.  UTF-16: the unit is copied.                                  *)
+(* "other": a character the encoding lacks is written as a numeric character reference                   *)
 WriteChar(c, o) ==
-  LET fam == Family(o.enc) IN
-  IF fam = "utf16" THEN <<Lit(c)>>
-  ELSE IF IsHigh(c) THEN Err
-  ELSE IF fam = "utf8" THEN <<Lit(c)>>
-  ELSE IF Encodable(c, o.enc) THEN <<Lit(c)>> ELSE <<Ref(c)>>      \* m_predicate ? write(value) : failureHandler = WriteCharRef
+  IF BadUnit(c) THEN Err
+  ELSE IF Family(o.enc) = "other" /\ ~Encodable(c, o.enc) THEN <<Ref(c)>>    \* m_predicate ? write(value) : failureHandler = WriteCharRef
+  ELSE <<Lit(c)>>
+(* m_writer.writeCommentChars(chars + start, n): the exception functor instead of the reference *)
+WriteCharStrict(c, o) ==
+  IF BadUnit(c) THEN Err
+  ELSE IF Family(o.enc) = "other" /\ ~Encodable(c, o.enc) THEN Err           \* UnrepresentableCharacterException
+  ELSE <<Lit(c)>>
 
 (* m_writer.write(value_type(ch)) of safeWriteContent: ASCII (or, XML 1.1, <= 0x9F) non-special *)
 WriteSafe(c, o) == IF Family(o.enc) = "other" /\ ~Encodable(c, o.enc) THEN <<Ref(c)>> ELSE <<Lit(c)>>
 
-(* writeNormalizedCharBig *)
-WriteBig(c, o) == IF o.ver = V11 /\ c = LSEP THEN <<Ref(c)>> ELSE WriteChar(c, o)
+(* writeNormalizedCharBig: checkCodeUnit first *)
+WriteBig(c, o) == IF BadUnit(c) THEN Err ELSE IF o.ver = V11 /\ c = LSEP THEN <<Ref(c)>> ELSE WriteChar(c, o)
 
 Cat(a, b) == IF a = Err \/ b = Err THEN Err ELSE a \o b
 
@@ -80,32 +91,34 @@ ImplAttr(p, o) == IF p = <<>> THEN <<>> ELSE Cat(AttrChar(p[1], o), ImplAttr(Tai
 LitCtxChar(c, o) ==
   IF c = LF THEN <<Lit(LF)>>
   ELSE IF CharRefForbidden(c, o.ver) THEN Err
-  ELSE WriteChar(c, o)                                            \* m_writer.write(chars, start, length): the reference fallback
+  ELSE WriteCharStrict(c, o)                                      \* checkCodeUnit, then writeCommentChars: no reference fallback
 RECURSIVE ImplLit(_, _)
 ImplLit(p, o) == IF p = <<>> THEN <<>> ELSE Cat(LitCtxChar(p[1], o), ImplLit(Tail(p), o))
 
 (* ---- writeCDATA / writeCDATAChars / writeCDATAChar -------------------------------------------------- *)
 (* the look-ahead for "]]>" is guarded by `length - i > 2` (fix ee3b6b4; `i - length > 2` on unsigned     *)
-(* operands was always true and read past the end): exactly the in-bounds test below                      *)
+(* operands was always true and read past the end): exactly the in-bounds test below.                     *)
+(* outside = the previous character was written as a reference after closing the section; every writer   *)
+(* re-opens the section for the next character that goes into it; the end of the text re-opens nothing     *)
+(* and writeCDATA closes only a section that is open.                                                     *)
 RECURSIVE ImplCdataFrom(_, _, _, _, _)
 ImplCdataFrom(p, i, outside, out, o) ==
   IF out = Err THEN Err
   ELSE IF i > Len(p)
-  THEN IF outside THEN Append(out, CDO)                 \* writeCDATAChars re-opens, writeCDATA closes only if outsideCDATA = false
-       ELSE Append(out, CDC)
-  ELSE LET c == p[i] IN
+  THEN IF outside THEN out ELSE Append(out, CDC)
+  ELSE LET c == p[i]
+           reopen == IF outside THEN <<CDO>> ELSE <<>>
+           close == IF outside THEN <<>> ELSE <<CDC>> IN
        IF c = RSB /\ i + 2 <= Len(p) /\ p[i + 1] = RSB /\ p[i + 2] = GT
-       THEN ImplCdataFrom(p, i + 3, FALSE,
-                          out \o (IF outside THEN <<CDC>> ELSE <<>>) \o <<Lit(RSB), Lit(RSB), CDC, CDO, Lit(GT)>>, o)
+       THEN ImplCdataFrom(p, i + 3, FALSE, out \o reopen \o <<Lit(RSB), Lit(RSB), CDC, CDO, Lit(GT)>>, o)
        ELSE IF c = LF THEN ImplCdataFrom(p, i + 1, outside, Append(out, Lit(LF)), o)
+       ELSE IF LitLineEnd(c, o.ver)                                \* CR; XML 1.1: NEL, LSEP - reference outside the section
+            THEN ImplCdataFrom(p, i + 1, TRUE, out \o close \o <<Ref(c)>>, o)
        ELSE IF CharRefForbidden(c, o.ver) THEN Err
-       ELSE LET fam == Family(o.enc) IN
-            IF fam = "utf16" THEN ImplCdataFrom(p, i + 1, outside, Append(out, Lit(c)), o)
-            ELSE IF IsHigh(c) THEN Err
-            ELSE IF fam = "utf8" THEN ImplCdataFrom(p, i + 1, outside, Append(out, Lit(c)), o)
-            ELSE IF Encodable(c, o.enc)
-                 THEN ImplCdataFrom(p, i + 1, FALSE, out \o (IF outside THEN <<CDO>> ELSE <<>>) \o <<Lit(c)>>, o)
-                 ELSE ImplCdataFrom(p, i + 1, TRUE, out \o (IF outside THEN <<>> ELSE <<CDC>>) \o <<Ref(c)>>, o)
+       ELSE IF BadUnit(c) THEN Err                                 \* checkCodeUnit
+       ELSE IF Family(o.enc) = "other" /\ ~Encodable(c, o.enc)
+            THEN ImplCdataFrom(p, i + 1, TRUE, out \o close \o <<Ref(c)>>, o)
+            ELSE ImplCdataFrom(p, i + 1, FALSE, out \o reopen \o <<Lit(c)>>, o)
 ImplCdata(p, o) == IF p = <<>> THEN <<>> ELSE ImplCdataFrom(p, 1, FALSE, <<CDO>>, o)     \* cdata(): length 0 writes nothing
 
 ImplSer(ctx, p, o) == CASE ctx = "text" -> ImplContent(p, o)
@@ -119,56 +132,17 @@ Conforms(ctx, p, o) ==
   IF r = Err THEN ~RepresentableStr(ctx, p, o)
   ELSE Writable(r, o.enc) /\ Parse(ctx, r, o.ver) = p
 
-(* ---- known deviations (keys of known_findings.d/C04.jsonl) ------------------------------------------ *)
-Has(p, S) == \E i \in DOMAIN p : p[i] \in S
-HasSeq(p, q) == HasSub(p, q)
-
-(* a lone low surrogate (UTF-16 output: any lone surrogate) is written instead of being refused *)
-KD_loneSurrogateWritten(ctx, p, o) ==
-  \E i \in DOMAIN p : IsLow(p[i]) \/ (Family(o.enc) = "utf16" /\ IsHigh(p[i]))
-(* U+FFFE / U+FFFF are not characters of XML and are written *)
-KD_nonCharacterWritten(ctx, p, o) == Has(p, {65534, 65535})
-(* #15: CR (XML 1.1: NEL, LSEP) literally inside a CDATA section *)
-KD_rawLineEndInCdataSection(ctx, p, o) ==
-  ctx = "cdata" /\ \E i \in DOMAIN p : LitLineEnd(p[i], o.ver) /\ ~CharRefForbidden(p[i], o.ver)
-                                       /\ (Family(o.enc) = "other" => Encodable(p[i], o.enc))
+(* ---- known deviations that remain (keys of known_findings.d/C04.jsonl) ------------------------------- *)
 (* CR (XML 1.1: NEL, LSEP) literally inside a comment / PI: no error although it cannot come back *)
 KD_rawLineEndInCommentOrPI(ctx, p, o) ==
   ctx \in {"comment", "pi"} /\ \E i \in DOMAIN p : LitLineEnd(p[i], o.ver) /\ ~CharRefForbidden(p[i], o.ver)
                                                    /\ (Family(o.enc) = "other" => Encodable(p[i], o.enc))
-(* #16: numeric character reference inside a comment / PI for a character the encoding lacks *)
-KD_charRefInCommentOrPI(ctx, p, o) ==
-  ctx \in {"comment", "pi"} /\ Family(o.enc) = "other" /\ \E i \in DOMAIN p : ~IsHigh(p[i]) /\ ~Encodable(p[i], o.enc)
-(* XML 1.1 table marks TAB "reference only": refused in CDATA sections, comments, PIs *)
-KD_xml11TabRejected(ctx, p, o) == o.ver = V11 /\ ctx \in {"cdata", "comment", "pi"} /\ Has(p, {TAB})
-(* XML 1.1: CR and the restricted characters are refused inside a cdata-section-elements element          *)
-(* instead of being written as references outside the section                                          *)
+(* XML 1.1: the restricted characters are refused inside a cdata-section-elements element instead of being *)
+(* written as references outside the section (as CR, NEL and LSEP now are)                              *)
 KD_xml11RestrictedInCdataElementRejected(ctx, p, o) ==
-  o.ver = V11 /\ ctx = "cdata" /\ \E i \in DOMAIN p : p[i] = CR \/ Restricted11(p[i])
-(* the section is re-opened after a final unencodable character (line feeds after it do not count) and   *)
-(* never closed                                                                                         *)
-RECURSIVE LastNonLF(_)
-LastNonLF(p) == IF p = <<>> THEN 0 ELSE IF p[Len(p)] # LF THEN Len(p) ELSE LastNonLF(SubSeq(p, 1, Len(p) - 1))
-KD_cdataSectionLeftOpen(ctx, p, o) ==
-  ctx = "cdata" /\ Family(o.enc) = "other" /\ LastNonLF(p) > 0
-  /\ LET c == p[LastNonLF(p)] IN ~IsHigh(c) /\ ~Encodable(c, o.enc) /\ ~CharRefForbidden(c, o.ver)
-(* "]]>" right after an unencodable character (line feeds in between do not count): a stray "]]>" is      *)
-(* written outside any section                                                                          *)
-RECURSIVE SkipLF(_, _)
-SkipLF(p, i) == IF i <= Len(p) /\ p[i] = LF THEN SkipLF(p, i + 1) ELSE i
-KD_cdataEndAfterUnencodable(ctx, p, o) ==
-  ctx = "cdata" /\ Family(o.enc) = "other"
-  /\ \E i \in 1..Len(p) : /\ ~IsHigh(p[i]) /\ ~Encodable(p[i], o.enc) /\ ~CharRefForbidden(p[i], o.ver)
-                           /\ LET j == SkipLF(p, i + 1) IN j + 2 <= Len(p) /\ SubSeq(p, j, j + 2) = <<RSB, RSB, GT>>
+  o.ver = V11 /\ ctx = "cdata" /\ \E i \in DOMAIN p : Restricted11(p[i])
 
 AnyKD(ctx, p, o) ==
-  \/ KD_loneSurrogateWritten(ctx, p, o)
-  \/ KD_nonCharacterWritten(ctx, p, o)
-  \/ KD_rawLineEndInCdataSection(ctx, p, o)
   \/ KD_rawLineEndInCommentOrPI(ctx, p, o)
-  \/ KD_charRefInCommentOrPI(ctx, p, o)
-  \/ KD_xml11TabRejected(ctx, p, o)
   \/ KD_xml11RestrictedInCdataElementRejected(ctx, p, o)
-  \/ KD_cdataSectionLeftOpen(ctx, p, o)
-  \/ KD_cdataEndAfterUnencodable(ctx, p, o)
 =============================================================================
